@@ -368,6 +368,10 @@ class Sim:
                 return
         elif is_edit and cls == "accepted":
             self.hist_chain = "edit"
+            if self.timeline.can_redo():
+                self.count("h_edit_after_undo")
+            if self.restarts:
+                self.count("io_edit_after_restart")
             self.timeline.edit(self._snap(post))
             self.expected_emissions += 1
         elif kind in ("enable", "disable", "restart"):
